@@ -3,7 +3,8 @@
    depends on printed beneath.  Model: Model/Combine.v (constructor check, planner filter, the
    loop of CombineOutputs.start_execution) over Lib/Path.v (os.path.relpath, link resolution).
 
-   Reading guide.  [run_combine f out deps d]: the combine task whose output directory is [out],
+   Reading guide.  [run_combine f co out deps d]: the combine task whose output directory is [out]
+   in a project whose output directory (ctx.output_path) is [co],
    whose listed dependencies are [deps] (each paired with the output path the planner obtains
    for it, None when there is none) and whose output directory initially has the entries [d];
    [f] is what the file system answers about the dependencies' directories.  The result is
@@ -25,17 +26,17 @@ Proof. exact relpath_resolves. Qed.
 Print Assumptions C18_relpath_resolves.
 
 (* a combine task that runs has dependencies with pairwise distinct names *)
-Theorem C18_distinct_names : forall f out deps d o d',
-  run_combine f out deps d = Ran o d' -> NoDup (map iname (map fst deps)).
+Theorem C18_distinct_names : forall f co out deps d o d',
+  run_combine f co out deps d = Ran o d' -> NoDup (map iname (map fst deps)).
 Proof. exact run_distinct. Qed.
 Print Assumptions C18_distinct_names.
 
 (* after a successful run, every listed dependency whose output directory is a non-empty
    directory has an entry under its name that is a link leading exactly to that directory *)
-Theorem C18_links : forall f out deps d d',
+Theorem C18_links : forall f co out deps d d',
   clean out = true ->
   (forall i p, In (i, Some p) deps -> clean p = true) ->
-  run_combine f out deps d = Ran Done d' ->
+  run_combine f co out deps d = Ran Done d' ->
   forall id dir, In (id, Some dir) deps ->
     fs_is_dir f dir = true -> fs_nonempty f dir = true ->
     exists t, lookup (iname id) d' = Some (Link t) /\ link_dest out t = dir.
@@ -43,59 +44,68 @@ Proof. exact run_links. Qed.
 Print Assumptions C18_links.
 
 (* the same inside a project: any root directory, task and dependencies in packages of any
-   depth, any versions -- no side conditions on the paths are left *)
+   depth, any versions -- no side conditions on the identifiers are left.  What IS assumed, here
+   and in Lib/Path.v: links resolve lexically (os.path.normpath), i.e. no component of the paths
+   involved is itself a symbolic link -- the code computes the link text with os.path.relpath,
+   which is lexical; a cond-out sub-directory that is a symlink to another disk is outside this
+   statement (and breaks the links; recorded as an assumption of the check). *)
 Theorem C18_links_project : forall f root cid deps d d',
   clean root = true -> WfIdent cid ->
   (forall i p, In (i, Some p) deps -> WfIdent i /\ exists v, p = abs_out root i v) ->
-  run_combine f (abs_out root cid None) deps d = Ran Done d' ->
+  run_combine f (cond_out_dir root) (abs_out root cid None) deps d = Ran Done d' ->
   forall id dir, In (id, Some dir) deps ->
     fs_is_dir f dir = true -> fs_nonempty f dir = true ->
     exists t, lookup (iname id) d' = Some (Link t) /\ link_dest (abs_out root cid None) t = dir.
 Proof. exact (run_links_project tie_out_dir). Qed.
 Print Assumptions C18_links_project.
 
-(* re-running: if the names of the wanted dependencies are free or held by links that lead
-   somewhere (what earlier runs leave), the run succeeds and every such entry is replaced by the
-   link to the directory selected now *)
-Theorem C18_update : forall f out deps d,
+(* re-running: if the names of the wanted dependencies are free or held by links Conductor made
+   ([replaceable]: the link leads, lexically, to a `<name>.task[.<version>]` directory inside the
+   project's output directory -- whether or not that directory still exists), the run succeeds
+   and every such entry is replaced by the link to the directory selected now *)
+Theorem C18_update : forall f co out deps d,
   ctor_check [] (map fst deps) = None ->
   (forall i p, In (i, Some p) deps -> fs_is_dir f p = true -> fs_nonempty f p = true ->
-               entry_ok f out (lookup (iname i) (start_dir d))) ->
-  exists d', run_combine f out deps d = Ran Done d' /\
+               entry_ok co out (iname i) (lookup (iname i) (start_dir d))) ->
+  exists d', run_combine f co out deps d = Ran Done d' /\
     forall id dir, In (id, Some dir) deps ->
       fs_is_dir f dir = true -> fs_nonempty f dir = true ->
       lookup (iname id) d' = Some (Link (relpath out dir)).
 Proof. exact run_update. Qed.
 Print Assumptions C18_update.
 
-(* an entry that is not a link under a wanted dependency's name: the run fails, the entry is
-   still there unchanged, and when nothing else is in the way the error names exactly it *)
-Theorem C18_conflict : forall f out deps d id dir,
+(* ... and that precondition is what Conductor's own runs leave: after a successful run, the entry
+   of every linked dependency is again replaceable, for any version the dependency has later and
+   even if the version it leads to is deleted in between (D27: a dangling link used to end every
+   later run in a FileExistsError traceback) *)
+Theorem C18_own_links_stay_replaceable : forall f root cid deps d d',
+  clean root = true -> WfIdent cid ->
+  (forall i p, In (i, Some p) deps -> WfIdent i /\ exists v, p = abs_out root i v) ->
+  run_combine f (cond_out_dir root) (abs_out root cid None) deps d = Ran Done d' ->
+  forall id dir, In (id, Some dir) deps -> fs_is_dir f dir = true -> fs_nonempty f dir = true ->
+  entry_ok (cond_out_dir root) (abs_out root cid None) (iname id) (lookup (iname id) d').
+Proof. exact (made_links_replaceable tie_out_dir). Qed.
+Print Assumptions C18_own_links_stay_replaceable.
+
+(* an entry that is not a link Conductor made -- a regular file, a directory, or a symbolic link
+   that leads anywhere else (D28: any link used to be overwritten) -- under a wanted dependency's
+   name: the run fails, the entry is still there unchanged, and when nothing else is in the way
+   the error names exactly it *)
+Theorem C18_conflict : forall f co out deps d id dir e,
   ctor_check [] (map fst deps) = None ->
   In (id, Some dir) deps -> fs_is_dir f dir = true -> fs_nonempty f dir = true ->
-  lookup (iname id) (start_dir d) = Some Other ->
-  exists o d', run_combine f out deps d = Ran o d' /\ o <> Done /\
-    lookup (iname id) d' = Some Other /\
+  lookup (iname id) (start_dir d) = Some e -> replaceable co out (iname id) e = false ->
+  exists o d', run_combine f co out deps d = Ran o d' /\ o <> Done /\
+    lookup (iname id) d' = Some e /\
     ((forall i p, In (i, Some p) deps -> fs_is_dir f p = true -> fs_nonempty f p = true ->
-                  iname i <> iname id -> entry_ok f out (lookup (iname i) (start_dir d))) ->
+                  iname i <> iname id -> entry_ok co out (iname i) (lookup (iname i) (start_dir d))) ->
      o = ConflictAt (iname id)).
 Proof. exact run_conflict. Qed.
 Print Assumptions C18_conflict.
 
-(* the branch outside the stated precondition: a dangling link under a wanted dependency's
-   name also makes the run fail (FileExistsError from symlink_to) and is left as it was *)
-Theorem C18_dangling : forall f out deps d id dir t,
-  ctor_check [] (map fst deps) = None ->
-  In (id, Some dir) deps -> fs_is_dir f dir = true -> fs_nonempty f dir = true ->
-  lookup (iname id) (start_dir d) = Some (Link t) -> fs_exists f (link_dest out t) = false ->
-  exists o d', run_combine f out deps d = Ran o d' /\ o <> Done /\
-    lookup (iname id) d' = Some (Link t).
-Proof. exact run_dangling. Qed.
-Print Assumptions C18_dangling.
-
 (* entries whose names are not dependency names are never touched, whatever the outcome *)
-Theorem C18_frame : forall f out deps d o d' n,
-  run_combine f out deps d = Ran o d' ->
+Theorem C18_frame : forall f co out deps d o d' n,
+  run_combine f co out deps d = Ran o d' ->
   (forall i p, In (i, Some p) deps -> iname i <> n) ->
   lookup n d' = lookup n (start_dir d).
 Proof. exact run_frame. Qed.
@@ -112,8 +122,7 @@ Definition ex_n := {| ipath := [[120]]; iname := [110] |}.
 Definition ex_c := {| ipath := [[120]; [121]]; iname := [99] |}.
 Definition ex_fs : fs :=
   {| fs_is_dir := fun p => negb (strs_eqb p (abs_out ex_root ex_g None));
-     fs_nonempty := fun _ => true;
-     fs_exists := fun _ => true |}.
+     fs_nonempty := fun _ => true |}.
 Definition ex_deps : list (ident * option path) :=
   [(ex_a, Some (abs_out ex_root ex_a None)); (ex_e, Some (abs_out ex_root ex_e (Some 5)));
    (ex_g, Some (abs_out ex_root ex_g None)); (ex_n, None)].
@@ -122,7 +131,7 @@ Definition ex_before : dirmap :=
    ([107; 101; 101; 112], Other)].
 
 Example C18_nonvacuous :
-  exists d', run_combine ex_fs (abs_out ex_root ex_c None) ex_deps (Some ex_before) = Ran Done d'
+  exists d', run_combine ex_fs (cond_out_dir ex_root) (abs_out ex_root ex_c None) ex_deps (Some ex_before) = Ran Done d'
     /\ lookup [97] d' = Some (Link [PAR; PAR; PAR; [97; 46; 116; 97; 115; 107]])
     /\ link_dest (abs_out ex_root ex_c None) [PAR; PAR; PAR; [97; 46; 116; 97; 115; 107]]
        = abs_out ex_root ex_a None
@@ -136,3 +145,11 @@ Proof.
   split; [eexists; split; vm_compute; reflexivity|].
   split; vm_compute; reflexivity.
 Qed.
+
+(* non-vacuity of C18_conflict for a link: under the name of dependency a there is somebody else's
+   symbolic link (to /r/old/v1, outside cond-out): the run reports the conflict and leaves it *)
+Definition ex_foreign : dirmap := [([97], Link [PAR; PAR; PAR; PAR; [111; 108; 100]; [118; 49]])].
+Example C18_foreign_link_nonvacuous :
+  replaceable (cond_out_dir ex_root) (abs_out ex_root ex_c None) [97] (Link [PAR; PAR; PAR; PAR; [111; 108; 100]; [118; 49]]) = false /\
+  run_combine ex_fs (cond_out_dir ex_root) (abs_out ex_root ex_c None) ex_deps (Some ex_foreign) = Ran (ConflictAt [97]) ex_foreign.
+Proof. split; vm_compute; reflexivity. Qed.
